@@ -480,6 +480,55 @@ class Codec:
         exp = 'ok %d %d %d %d' % (len(list(AnsiParam)), len(EFFECT_CLEAR_DICT), len(list(_AnsiControlFn)), len(F.__members__))
         self.emit('tables', 'tables', exp, 'table sizes', [])
 
+    def exhaustive(self, pid):
+        """small-scope exhaustive streams for the codec properties (thorough tier)"""
+        import itertools
+        if pid == 'C19':
+            alpha = ['\x1b', '[', '1', ';', 'm', 'J', 'x']
+            for n in range(0, 6):
+                for tup in itertools.product(alpha, repeat=n):
+                    s_ = ''.join(tup)
+                    if n >= 4 and '\x1b' not in s_:
+                        continue
+                    for flags in ((True, None), (False, 'm'), (True, 'mJ')):
+                        self.tokenize(s_, flags)
+        elif pid in ('C18', 'C02'):
+            codes = [0, 1, 22, 31, 38, 48, 5, 2, 255, 256, 39, 77]
+            for n in range(0, 5):
+                for tup in itertools.product(codes, repeat=n):
+                    self.pgs_exact(list(tup), False)
+                    if n <= 3:
+                        self.pgs_exact(list(tup), True)
+        elif pid == 'C15':
+            alpha = ['1', '3', '8', ';', ' ', '5', 'm', '+', '0', '2']
+            for n in range(1, 5):
+                for tup in itertools.product(alpha, repeat=n):
+                    self.setting(''.join(tup))
+
+    def pgs_exact(self, codes, add_err):
+        """parse_graphic_sequence on an exact list of ints (string form), with the terminal oracle"""
+        arg = ';'.join(str(c) for c in codes)
+        inp = P.line('pgs', [0], P.e_bool(add_err), P.e_str(arg))
+        pg, std = self.mod.parse_graphic_sequence, self.mod.settings_to_dict
+        out = call(lambda: pg(arg, add_err))
+        viol = []
+        if out[0] != 'ok':
+            viol.append(('C18', 'pgs_total', '%r: %r' % (arg, out[1])))
+        else:
+            ss = out[1]
+            if not add_err:
+                want = frozenset(T.feed_codes({}, codes if codes else [0]).items())
+                got = self.alpha(std(ss))
+                if got != want:
+                    viol.append(('C18', 'pgs_terminal', '%r -> %r gives %r, terminal %r' % (arg, [str(q) for q in ss], sorted(got or ()), sorted(want))))
+                if any(';' in str(q) and not q.parsable for q in ss):
+                    viol.append(('C18', 'pgs_groups_intact', '%r -> %r' % (arg, [str(q) for q in ss])))
+            elif codes:
+                toks = [int(t) for q in ss for t in str(q).split(';')]
+                if toks != codes:
+                    viol.append(('C18', 'pgs_erroneous_tokens', '%r -> %r' % (arg, [str(q) for q in ss])))
+        self.emit('pgs', inp, outcome(out, lambda ss_: P.ok_strs([str(q) for q in ss_])), 'parse_graphic_sequence(%r,%r)' % (arg, add_err), viol)
+
     def terminal_twin(self, s):
         """the two terminal models must agree (an infrastructure check, not a property)"""
         shown, final, wf = T.run(s, {})
